@@ -15,7 +15,7 @@ the retired_extents list; a scanned record loses iff the indexed one has a stric
 queues the scanned extent and the replace branch queues the existing extent. Not decided: equality of contents across
 nested recoveries; that repairs touch no live block (value-level).
 """
-DECIDED = ['journal image and marker writes of a retirement transaction cover the same chunk (shared with C03.bracket)', 'journal position continuity: decoded (generation, slot) always restored; next = (generation + 1, other slot); advanced only after write + flush', "replay: markers before clear, clear on Ok edge", "post-scan retirement is journalled and fed from retired_extents",
+DECIDED = ['a read-only recovery masks journaled extents in start order, so it reports what a read-write recovery reports (shared with C15.mask)', 'journal image and marker writes of a retirement transaction cover the same chunk (shared with C03.bracket)', 'journal position continuity: decoded (generation, slot) always restored; next = (generation + 1, other slot); advanced only after write + flush', "replay: markers before clear, clear on Ok edge", "post-scan retirement is journalled and fed from retired_extents",
            "winner rule: strict `existing.timestamp > scanned.timestamp` loses; right extent queued on each branch",
            'a marker length is refused only for zero or beyond-device (coalesced chains of any length are accepted)',
            'recovery frees / queues an extent with the on-disk length of that same generation',
